@@ -188,19 +188,24 @@ DoMeta(opt, orc, A, k, a, b, cc) ==
 CondErr(ck) == CASE ck = 1 -> "PreconditionError" [] ck = 2 -> "PostconditionError"
                  [] ck = 3 -> "InvariantError"
 
-DoCond(opt, orc, A, ck, owner, idx, old) ==
+(* post-conditions and invariants also see after(1) / idle(1) of state ts (the owner, or the source *)
+(* state of the owning transition): logged as a "ctime" entry right before the condition           *)
+DoCond(opt, orc, A, ck, owner, idx, old, ts) ==
   IF ~Ok(A) THEN A
   ELSE LET n  == A.cnt + 1
            ok == orc.cfail # n
+           tm == IF ck = 1 THEN <<>>
+                 ELSE <<LogE("ctime", owner, IF A.S.time - 1 >= A.S.entryT[ts] THEN 1 ELSE 0,
+                             IF A.S.time - 1 >= A.S.idleT[ts] THEN 1 ELSE 0, 0, 0, A.S.time)>>
            A1 == [A EXCEPT !.cnt = n,
-                           !.log = Append(@, LogE("cond", ck, owner, idx, old,
-                                                  IF ok THEN 1 ELSE 0, A.S.time))]
+                           !.log = (@ \o tm) \o <<LogE("cond", ck, owner, idx, old,
+                                                        IF ok THEN 1 ELSE 0, A.S.time)>>]
        IN IF ok THEN A1 ELSE [A1 EXCEPT !.exc = CondErr(ck), !.eobj = owner, !.eidx = idx]
 
-RECURSIVE DoConds(_, _, _, _, _, _, _, _)
-DoConds(opt, orc, A, ck, owner, cnt, idx, old) ==
+RECURSIVE DoConds(_, _, _, _, _, _, _, _, _)
+DoConds(opt, orc, A, ck, owner, cnt, idx, old, ts) ==
   IF opt.ignore \/ idx > cnt THEN A
-  ELSE DoConds(opt, orc, DoCond(opt, orc, A, ck, owner, idx, old), ck, owner, cnt, idx + 1, old)
+  ELSE DoConds(opt, orc, DoCond(opt, orc, A, ck, owner, idx, old, ts), ck, owner, cnt, idx + 1, old, ts)
 
 (* a code fragment runs: probe, counter, clock tick; its sends are kept for the end of the micro step *)
 SentOf(d) ==
@@ -226,7 +231,7 @@ DoExit(c, opt, orc, A, s, conf0) ==
                                               ELSE conf0 \cap Children(c, s)
                    ELSE A1.S.mem[h]]
         A2 == [A1 EXCEPT !.S.mem = m2, !.S.conf = @ \ {s}]
-        A3 == DoConds(opt, orc, A2, 2, s, c.spost[s], 1, A2.S.old[s])
+        A3 == DoConds(opt, orc, A2, 2, s, c.spost[s], 1, A2.S.old[s], s)
     IN DoMeta(opt, orc, A3, "xmeta", s, 0, 0)
 
 (* process the transition of a micro step *)
@@ -235,11 +240,11 @@ DoTrans(c, opt, orc, A, i, evr) ==
   ELSE
     LET t  == c.trans[i]
         A0 == IF ~opt.ignore /\ t.post + t.inv > 0 THEN [A EXCEPT !.told = A.S.x] ELSE A
-        A1 == DoConds(opt, orc, A0, 1, -i, t.pre, 1, -1)
-        A2 == DoConds(opt, orc, A1, 3, -i, t.inv, 1, A1.told)
+        A1 == DoConds(opt, orc, A0, 1, -i, t.pre, 1, -1, t.src)
+        A2 == DoConds(opt, orc, A1, 3, -i, t.inv, 1, A1.told, t.src)
         A3 == DoCode(A2, "acode", i, evr.ev, evr.par, t.act)
-        A4 == DoConds(opt, orc, A3, 2, -i, t.post, 1, A3.told)
-        A5 == DoConds(opt, orc, A4, 3, -i, t.inv, 1, A4.told)
+        A4 == DoConds(opt, orc, A3, 2, -i, t.post, 1, A3.told, t.src)
+        A5 == DoConds(opt, orc, A4, 3, -i, t.inv, 1, A4.told, t.src)
         A6 == IF Ok(A5) THEN [A5 EXCEPT !.S.idleT[t.src] = A5.S.time] ELSE A5
     IN DoMeta(opt, orc, A6, "tmeta", t.src, t.tgt, evr.ev)
 
@@ -249,7 +254,7 @@ DoEnter(c, opt, orc, A, s) ==
   ELSE
     LET A0 == IF ~opt.ignore /\ c.spost[s] + c.sinv[s] > 0 THEN [A EXCEPT !.S.old[s] = A.S.x]
                                                             ELSE A
-        A1 == DoConds(opt, orc, A0, 1, s, c.spre[s], 1, -1)
+        A1 == DoConds(opt, orc, A0, 1, s, c.spre[s], 1, -1, s)
         A2 == DoCode(A1, "ecode", s, 0, 0, c.entry[s])
         A3 == IF Ok(A2) THEN [A2 EXCEPT !.S.conf = @ \cup {s}, !.S.entryT[s] = A2.S.time,
                                          !.S.idleT[s] = A2.S.time]
@@ -293,7 +298,7 @@ ApplyAll(c, opt, orc, A, plan) ==
 
 (* state invariants at the end of every call, configuration order = (depth, name) *)
 EndInvariants(c, opt, orc, A) ==
-  FoldLeft(LAMBDA acc, s : DoConds(opt, orc, acc, 3, s, c.sinv[s], 1, acc.S.old[s]),
+  FoldLeft(LAMBDA acc, s : DoConds(opt, orc, acc, 3, s, c.sinv[s], 1, acc.S.old[s], s),
            A, SortDN(c, A.S.conf))
 
 -----------------------------------------------------------------------------
